@@ -33,7 +33,8 @@ check; C17.4 the owner table is written by plain assignment and exactly the
 recorded paths of the request are deleted; C17.5 equality (not prefix) with
 this host, and /scheduled is deleted only while this host's placement node
 exists; thorough: writers of running / endpoint / identity nodes are the owner
-modules.
+modules. Fourth round: C17.5 running / endpoint / identity nodes are deleted
+in presence.py only by the owner-checked unregister routines.
 Does NOT decide interleavings of two sessions with expiry (schedules).
 """
 
